@@ -348,7 +348,7 @@ let handle_file c =
                 spec_ok c "C18.sorted" (block_sorted bes) (Printf.sprintf "block at %d (level %d) has unsorted keys" o l);
               if prop = "C15" && (l = levels + 1 || l >= 2) && bes <> [] then begin
                 let sz = int_of_n (block_size_of b) and szb = int_of_n (size_without_last b bes) in
-                let b_i = int_of_n b_eff in
+                let b_i = capped_int_of_n b_eff in   (* block sizes up to usize::MAX: capped at max_int, far above any size here *)
                 spec_ok c "C15.before" (szb < b_i) (Printf.sprintf "block at %d (level %d): size without last entry %d >= B=%d" o l szb b_i);
                 if Hashtbl.find maxoff l <> o then
                   spec_ok c "C15.reached" (sz >= b_i) (Printf.sprintf "block at %d (level %d) emitted below B: size %d < %d" o l sz b_i)
